@@ -89,7 +89,72 @@ Inductive case19 :=
 | KMeditAscii (m : mesh) (pt : list (N * pbytes * option N)) (rt : list (pbytes * N)) (wbytes : option pbytes) (rback : ires mesh)
 (* reader 0 = parse_binary, 1 = parse_ascii, 2 = from_reader *)
 | KMeditRead (reader : N) (rt : list (pbytes * N)) (bytes : pbytes) (r : ires mesh)
-| KSniff (bytes : pbytes) (bin : bool) (asc : ires bool).
+| KSniff (bytes : pbytes) (bin : bool) (asc : ires bool)
+(* header-field boundaries (criterion counts around 2^8, 2^12, 2^13, 2^14, 2^15, 2^16; row counts
+   and id counts around 2^16): the values are NOT in the case file but given by the formula
+   [gen_val] of (seed, row, column), evaluated identically by the harness and here; the
+   implementation's outputs come as (length, digest) of the bytes it wrote and (variant, row
+   lengths, digest of all values) of what it read back.  The judgement stays here. *)
+| KWeightsBig (is_int : bool) (crit rows seed : N) (wsum : option (N * N)) (rback : ires (bool * list N * N))
+| KPartBig (n seed : N) (wsum : option (N * N)) (rback : ires (N * N))
+(* a mesh given by formula: [n] nodes in dimension [dim], a Triangle block of one element, then an
+   Edge block of [e] elements; node / element counts around 2^16.  ascii = true: written by
+   display_medit_ascii, coordinates drawn from the 8-entry table [coord_tab] (std's text and its
+   parse for these 8 values are [pt]); false: serialize_medit_binary, arbitrary bit patterns.
+   Read back by Mesh::from_reader; summaries = (dimension, #nodes, #elements, digest of everything) *)
+| KMeditBig (ascii : bool) (dim n e seed : N) (pt : list (N * pbytes * option N))
+            (wsum : option (N * N)) (rback : ires (N * N * N * N)).
+
+(* ---- formula-generated values and digests (mirrored in harness/src/bin/c19.rs) ---- *)
+
+Definition mask64 : N := 18446744073709551615.
+Definition gen_specials : list N :=
+  [0; 9223372036854775808; 9218868437227405312; 18442240474082181120; 9221120237041090560;
+   9218868437227405313; 9218868437227405311; 1].
+(* an arbitrary 64-bit pattern; one in sixteen is a special float pattern / extreme integer *)
+Definition gen_val (seed r c : N) : N :=
+  (* multiplications recurse on their FIRST operand: keep the small one first *)
+  let v0 := N.land (seed + r * 11400714819323198485 + c * 13787848793156543929) mask64 in
+  let v := N.lxor v0 (N.shiftr v0 31) in
+  if N.shiftr v 60 =? 0 then nth (N.to_nat (N.land v 7)) gen_specials 0 else v.
+Fixpoint gen_row (seed r : N) (n : nat) (j : N) : list N :=
+  match n with O => [] | S k => gen_val seed r j :: gen_row seed r k (j + 1) end.
+Fixpoint gen_rows (seed : N) (c n : nat) (r : N) : list (list N) :=
+  match n with O => [] | S k => gen_row seed r c 0 :: gen_rows seed c k (r + 1) end.
+
+(* an order-sensitive running digest with shifts and additions only (64-bit multiplications are
+   slow under vm_compute): h' = (h << 5) + (h >> 2) + h + x + 1  mod 2^64 *)
+Definition dstep (h x : N) : N := N.land (N.shiftl h 5 + N.shiftr h 2 + h + x + 1) mask64.
+Definition dinit : N := 14695981039346656037.
+(* digest of a byte string, eight bytes at a time (little endian), then the tail *)
+Fixpoint digest_bytes (h : N) (l : list N) : N :=
+  match l with
+  | a :: b :: c :: d :: e :: f :: g :: i :: t => digest_bytes (dstep h (le_dec [a; b; c; d; e; f; g; i])) t
+  | rest => fold_left dstep rest h
+  end.
+Definition digest_vals (l : list N) : N := fold_left dstep l dinit.
+Definition bytes_sum (b : list N) : N * N := (N.of_nat (length b), digest_bytes dinit b).
+
+(* `z as u64`, without a division *)
+Definition zbits (z : Z) : N := if (z <? 0)%Z then Z.to_N (z + 18446744073709551616) else Z.to_N z.
+
+Definition warray_sum (a : warray) : bool * list N * N :=
+  match a with
+  | WInts r => (true, map (fun x => N.of_nat (length x)) r, digest_vals (map zbits (concat r)))
+  | WFloats r => (false, map (fun x => N.of_nat (length x)) r, digest_vals (concat r))
+  end.
+Definition wsum_eqb (a b : bool * list N * N) : bool :=
+  Bool.eqb (fst (fst a)) (fst (fst b)) && leqb N.eqb (snd (fst a)) (snd (fst b)) && (snd a =? snd b).
+Definition sum_eqb (a b : N * N) : bool := (fst a =? fst b) && (snd a =? snd b).
+
+Definition wsum_matches (r : fres (list N)) (i : option (N * N)) : bool :=
+  match r, i with
+  | FOk b, Some s => sum_eqb (bytes_sum b) s
+  | FPanic _, None => true
+  | _, _ => false
+  end.
+Definition fres_map {A B} (f : A -> B) (r : fres A) : fres B :=
+  match r with FOk a => FOk (f a) | FErr e => FErr e | FPanic p => FPanic p | FOutOfFuel => FOutOfFuel end.
 
 Definition tab_print (pt : list (N * list N)) (x : N) : list N :=
   match find (fun e => fst e =? x) pt with Some e => snd e | None => [] end.
@@ -104,6 +169,39 @@ Definition nodes_below (bound : N) (m : mesh) : bool :=
 
 Definition sniff_matches (buf : list N) (bin : bool) (asc : ires bool) : bool :=
   Bool.eqb (test_format_binary buf) bin && read_matches Bool.eqb (test_format_ascii buf) asc.
+
+(* ---- formula-generated meshes ---- *)
+
+(* 0.0, -0.0, 1.0, -1.5, 0.1, 1e15, 0.000025, 2^53 + 2 (short texts: the file stays ~2 MB) *)
+Definition coord_tab : list N :=
+  [0; 9223372036854775808; 4607182418800017408; 13832806255468478464; 4591870180066957722;
+   4831355200913801216; 4537999922764202797; 4845873199050653697].
+Fixpoint gen_seq {A} (f : N -> A) (n : nat) (j : N) : list A :=
+  match n with O => [] | S k => f j :: gen_seq f k (j + 1) end.
+Definition gen_mesh (tab : bool) (dim n e seed : N) : mesh :=
+  let nmask := if 65536 <=? n then 65535 else 3 in       (* node numbers below n (n >= 4) *)
+  let coord i := let v := gen_val seed 0 i in if tab then nth (N.to_nat (N.land v 7)) coord_tab 0 else v in
+  mkmesh dim
+    (gen_seq coord (N.to_nat (dim * n)) 0)
+    (gen_seq (fun i => of_bits 64 (gen_val seed 1 i)) (N.to_nat n) 0)
+    [mkblock Triangle [0; 1; 2] [of_bits 64 (gen_val seed 4 0)];
+     mkblock Edge (gen_seq (fun k => N.land (gen_val seed 2 k) nmask) (N.to_nat (2 * e)) 0)
+                  (gen_seq (fun k => of_bits 64 (gen_val seed 3 k)) (N.to_nat e) 0)].
+
+Definition ty_idx (t : etype) : N :=
+  match t with Vertex => 0 | Edge => 1 | Triangle => 2 | Quadrangle => 3 | Quadrilateral => 4
+             | Tetrahedron => 5 | Hexahedron => 6 end.
+Definition lenN {A} (l : list A) : N := N.of_nat (length l).
+Definition mesh_vals (m : mesh) : list N :=
+  [m_dim m; lenN (m_coords m)] ++ m_coords m ++ [lenN (m_nrefs m)] ++ map zbits (m_nrefs m)
+  ++ [lenN (m_topo m)]
+  ++ flat_map (fun b => [ty_idx (b_ty b); lenN (b_nodes b)] ++ b_nodes b
+                        ++ [lenN (b_refs b)] ++ map zbits (b_refs b)) (m_topo m).
+Definition mesh_sum (m : mesh) : N * N * N * N :=
+  (m_dim m, lenN (m_nrefs m), fold_left (fun a b => a + lenN (b_refs b)) (m_topo m) 0,
+   digest_vals (mesh_vals m)).
+Definition sum4_eqb (a b : N * N * N * N) : bool :=
+  match a, b with (a1, a2, a3, a4), (b1, b2, b3, b4) => (a1 =? b1) && (a2 =? b2) && (a3 =? b3) && (a4 =? b4) end.
 
 Definition eval19 (c : case19) : verdict :=
   match c with
@@ -180,6 +278,46 @@ Definition eval19 (c : case19) : verdict :=
     {| corr_ok := read_matches mesh_eqb model r;
        prop_ok := true;
        cls := 90 + 4 * which + ires_class r |}
+  | KWeightsBig is_int crit rows seed ws rb =>
+    let vals := gen_rows seed (N.to_nat crit) (N.to_nat rows) 0 in
+    let a := if is_int then WInts (map (map (of_bits 64)) vals) else WFloats vals in
+    let mw := write_weights a in
+    (* what the property demands of the read-back: the variant, [rows] rows of exactly [crit]
+       values each, and the values themselves (by digest) *)
+    let expected := (is_int, repeat crit (N.to_nat rows), digest_vals (concat vals)) in
+    let inq := (1 <=? crit) && (crit <? 65536) && (1 <=? rows) in
+    {| corr_ok := wsum_matches mw ws
+                  && match mw with
+                     | FOk b => read_matches wsum_eqb (fres_map warray_sum (read_weights b)) rb
+                     | _ => true
+                     end;
+       prop_ok := if inq then is_ok_of wsum_eqb expected rb else true;
+       cls := (if inq then 120 else 124) + ires_class rb |}
+  | KPartBig n seed ws rb =>
+    let ids := gen_row seed 0 (N.to_nat n) 0 in
+    let b := write_partition ids in
+    {| corr_ok := wsum_matches (FOk b) ws
+                  && read_matches sum_eqb
+                       (fres_map (fun l => (N.of_nat (length l), digest_vals l)) (read_partition b)) rb;
+       prop_ok := is_ok_of sum_eqb (n, digest_vals ids) rb;
+       cls := 128 + ires_class rb |}
+  | KMeditBig ascii dim n e seed pt ws rb =>
+    let pt' := map (fun x => (fst (fst x), unpack (snd (fst x)))) pt in
+    (* parse table: exactly std's texts of the 8 table values *)
+    let rt' := flat_map (fun x => match snd x with Some y => [(unpack (snd (fst x)), y)] | None => [] end) pt in
+    let m := gen_mesh ascii dim n e seed in
+    let floats_ok := forallb (fun x => word_okb (unpack (snd (fst x)))
+                                       && match snd x with Some y => y =? fst (fst x) | None => false end) pt
+                     && forallb (fun c => existsb (fun x => fst (fst x) =? c) pt) coord_tab in
+    let mw := if ascii then serialize_ascii (tab_print pt') m else serialize_binary m in
+    let inq := (negb ascii || floats_ok) && (1 <=? dim) && (4 <=? n) in
+    {| corr_ok := wsum_matches mw ws
+                  && match mw with
+                     | FOk b => read_matches sum4_eqb (fres_map mesh_sum (from_reader (tab_parse rt') b)) rb
+                     | _ => true
+                     end;
+       prop_ok := if inq then is_ok_of sum4_eqb (mesh_sum m) rb else true;
+       cls := (if ascii then 136 else 132) + ires_class rb |}
   | KSniff b bin asc =>
     {| corr_ok := sniff_matches (unpack b) bin asc;
        prop_ok := true;
